@@ -29,6 +29,8 @@ Clauses(m, e) ==
     << <<"C06.lockstep-gating", m.acc = e.acc>>,
        <<"C06.lockstep-run-state", m.started = e.started /\ m.state = e.state>>,
        <<"C06.lockstep-pause-hold-flags", m.paused = e.paused /\ m.holding = e.holding>>,
+       <<"C08.lockstep-output-and-hardware", m.out = e.out /\ m.hw = e.hw>>,
+       <<"C09.lockstep-captured-output", m.prev = e.prev>>,
        <<"C10.lockstep-stopping", m.stopping = e.stopping>>,
        <<"C10.lockstep-instances", {n \in Uod : m.inst[n].rid # 0} = SetOfSeq(e.inst)>>,
        <<"C10.lockstep-executing-list", Names(m.execL) = e.execL>>,
